@@ -4,6 +4,9 @@ package composite
 
 import (
 	"fmt"
+	"github.com/go-logr/logr"
+	"github.com/go-logr/logr/funcr"
+	"metacontroller/pkg/logging"
 	"regexp"
 	"sort"
 	"strings"
@@ -36,9 +39,15 @@ type c17Cfg struct {
 	Customize  bool
 	Finalize   bool
 	SSA        bool
+	Verbose    bool // log verbosity 10: the code behind V(n).Enabled() guards runs too (the log sink renders and discards)
 }
 
 func c17Build(cfg c17Cfg, parents []string) *cworld {
+	if cfg.Verbose {
+		logging.Logger = funcr.New(func(prefix, args string) {}, funcr.Options{Verbosity: 10})
+	} else {
+		logging.Logger = logr.Logger{}
+	}
 	o := ccOpt{parent: kit.Thing, children: []*sim.Kind{kit.Widget}, customize: cfg.Customize, finalize: cfg.Finalize, ssa: cfg.SSA,
 		methods: map[string]v1alpha1.ChildUpdateMethod{"widgets": v1alpha1.ChildUpdateRollingInPlace}}
 	if cfg.FieldPaths != "default" {
@@ -133,8 +142,9 @@ func TestVerifC17(t *testing.T) {
 	for _, fpaths := range []string{"default", "spec.template", "spec.template.ver"} {
 		for _, cust := range []bool{false, true} {
 			for _, fin := range []bool{false, true} {
-				for _, ssa := range []bool{false, true} {
-					cfg := c17Cfg{FieldPaths: fpaths, Customize: cust, Finalize: fin, SSA: ssa}
+				for _, ssav := range []int{0, 1, 2} {
+					ssa := ssav == 1
+					cfg := c17Cfg{FieldPaths: fpaths, Customize: cust, Finalize: fin, SSA: ssa, Verbose: ssav == 2}
 					// history: bring up, edit template (2 live revisions), second edit (3), delete parent (finalize)
 					steps := []string{"sync", "sync", "sync", "edit-v2", "sync", "sync", "edit-v3", "sync", "sync", "delete", "sync", "sync"}
 					// fault position: -1 none, else the k-th request of the run fails with 500 (every position)
